@@ -16,7 +16,7 @@ LEVEL = 'exploration'
 RULE = ('Engine A: lattice of experiment frames with cooldown: 4 shapes x n_pre in {3 (one residual degree of freedom),4,6,10} x n_test in {1,2,4} x cooldown in '
         '{1,2} x control swing in the test period in {0, 20, 80, 240} (so that the reference cumulative scale decreases) x '
         'unassigned-period dates in {none, lead, gap, trail} x cost scenario in {fixed, variable, treatment-pre-cost-only (control never spends: slope-free cost regression), low-spend (the fitted line predicts negative spend on some dates)} x metric in {response, cost} x '
-        'level in {0.6,0.8,0.9,0.95} x tails x object state in {fresh, already fitted to ANOTHER experiment and asked for all reports} x unit in {1, 2^-20 (the same experiment expressed in millions; all tolerances scale with the unit)}. Oracle: the call succeeds; lower <= estimate <= upper on every date for all three '
+        'level in {0.6,0.8,0.9,0.95} x tails x object state in {fresh, already fitted to ANOTHER experiment and asked for all reports} x unit in {1, 2^-20 (the same experiment expressed in millions; all tolerances scale with the unit)} x response / cost held in integer columns (where all values are integral). Oracle: the call succeeds; lower <= estimate <= upper on every date for all three '
         'series; counterfactual + pointwise = observed treatment series; pre-period pointwise = reference OLS residuals; last '
         'cumulative row = incremental effect and the reference quantiles; series cover exactly the analysed dates. Known '
         'finding K1 is keyed by the REFERENCE condition "cumulative scale of the closed-form posterior is not non-decreasing" '
@@ -46,6 +46,8 @@ def cases(tier, seed):
                         if thorough or extra is None:
                             out.append(dict(out[-1], state='refit'))
                         if (thorough or extra is None) and swing == 0:
+                            out.append(dict(out[-2] if (thorough or extra is None) else out[-1], int_columns=True))
+                        if (thorough or extra is None) and swing == 0:
                             out.append(dict(out[-2] if (thorough or extra is None) else out[-1], unit=2.0 ** -20))
     return out
 
@@ -59,6 +61,12 @@ def run_case(case):
     x, y, cc, ct = u * x, u * y, u * cc, u * ct
     extra = [(case['extra'], -1)] if case['extra'] else None
     df = frames.build(x, y, periods, cost_c=cc, cost_t=ct, extra_dates=extra)
+    if case.get('int_columns'):
+        # the same numbers held in INTEGER columns (counts, whole currency units); only where every value is integral
+        if all(float(v).is_integer() for col in ('response', 'cost') for v in df[col]):
+            df = df.astype({'response': 'int64', 'cost': 'int64'})
+        else:
+            return {'viol': [], 'nontrivial': False, 'outcome': 'not-integral', 'counts': {'int_presentation_not_applicable': 1}}
     viol = []
 
     def add(key, msg):
